@@ -5,6 +5,22 @@ HERE = os.path.dirname(os.path.dirname(os.path.abspath(__file__)))
 TECH = "contract-based deductive verification"
 BND = "bounded run-time contract checking of the real code over an exhaustively enumerated finite scope (stand-in for functions outside the verifier's reach; labelled bounded, never counted as proved)"
 CHECKS = {
+ "C01": dict(cat="other", engine="symrun",
+   text="Kernels _proyect_point/_restore_point: proved for all inputs. _find_closest_ref: nearest reference key for all coordinates and every key set up to 3 (quick) / 4 anchors. Glue ExchangeMap(ref,tgt,s)(ref): the real classes run on real Molecule objects with symbolic coordinates and scale for every bond graph on 3 atoms and a representative/all set on 4 atoms, calcule_base by its proved contract; per path the law out_j = a + s(q_j - a) is a lemma call (lemma proved once by Groebner ideal membership) plus a polynomial identity; s=1 reproduces the target; frames of inputs. Structure-bounded, all real coordinates; float twin on generic/collinear/axis-aligned geometries separate.",
+   note="A1, A2; calcule_base and scipy euclidean by contract; structure scope stated in evidence; arbitrary molecule size not proved",
+   tech=TECH + ": symbolic execution of the real classes per structure, callees by contract, lemma calls, z3 + Groebner", ref="DESIGN.md section 6 C01"),
+ "C02": dict(cat="other", engine="symrun",
+   text="Same harness, map applied at P and at R P + t with R in SO(3) symbolic. Generic anchors: out' = R out + t from the equivariance clause of calcule_base (certificate); every anchor incl. collinear, and 2-/1-atom references with the random completion as fresh symbols: distance to anchor, coordinate along the axis (and hence distance from the axis) preserved from orthonormality alone; the axis itself moves rigidly (scripted proof); two-atom references build the frame axis from the bond. Structure-bounded.",
+   note="the equivariance clause of calcule_base (frame rows rotate with the points, non-collinear input) is an assumed clause of its contract, cross-checked numerically; A1, A2, A7 (random draws are not exactly degenerate)",
+   tech=TECH + ": symbolic execution per structure, explicit polynomial certificates, Groebner lemmas", ref="DESIGN.md section 6 C02"),
+ "C03": dict(cat="other", engine="symrun",
+   text="Map built at P, applied to an independent symbolic conformation P': distance to the anchor = s x construction distance and mutual distances of atoms sharing an anchor scale by s (lemma instances N1/N3 + certificate); locality as a free-symbol frame: the mapped atom's term mentions only the new coordinates of its anchor and the anchor's two lowest-numbered bonded atoms; frames built from exactly those atoms. Structure-bounded; float twin separate.",
+   note="A1, A2; calcule_base by contract as an uninterpreted function of its nine inputs (locality is then decided by congruence/free symbols)",
+   tech=TECH + ": symbolic execution per structure, lemma calls + certificates", ref="DESIGN.md section 6 C03"),
+ "C04": dict(cat="other", engine="symrun+smallscope",
+   text="Single-step obligation from ANY prior content of the per-anchor frames (fresh junk symbols = any call history): the result mentions no stale frame, equals the value determined by construction data and argument, leaves argument/construction molecules untouched, shares no array with them; by induction over the call sequence this covers every history length (state scope: structures up to the bound). Bounded part: exhaustive call sequences up to length 3/4 with rejected arguments and mutation of construction molecules on the real objects.",
+   note="A1, A2; induction over the history is the two-line argument in DESIGN; TypeError clauses are bounded only",
+   tech=TECH + " (single-step obligation under an arbitrary-state abstraction) + bounded run-time contract checking", ref="DESIGN.md section 6 C04"),
  "C05": dict(cat="other", engine="smallscope",
    text="Contracts on Manager.extrapolate_system / complete_correspondence / calculate_exchange_maps taken from the statement are evaluated at run time on the real Manager/System/ExchangeMap/GroFile over every molecule sequence up to the bound x every subset of species given an end molecule x box kinds x scale factors, against an oracle computed from the generated input. Bounded only; no obligation is counted as proved.",
    note="bounded scope (sequences <= 3 quick / <= 5 thorough over 4 species); trusted: CPython, numpy, the check's own .gro formatter/parser; exchange-map values taken from the real ExchangeMap (its correctness is C01-C04)",
@@ -17,6 +33,18 @@ CHECKS = {
    text="accept_metropolis: every path of the real function on symbolic energies/acceptance/draw (complete). _minimize_molecules: VCs generated from the AST of the real function, loop invariant over ghost state (held configuration, lowest measure, steps since last new lowest), call-site assertions, transition and exit postconditions -- all discharged by z3 for every iteration count and every random stream (draws are universally quantified symbols). minimize_molecules wrapper: parameter forwarding. Bounded twins (monitored real loop; real loop with scripted callees, exhaustive to a choice depth) are separate and not counted as proved.",
    note="callees by contract (Chi2Calculator pure and >= 0: C08; move_mol_atom: C07; rotation_matrix: C17); numpy array +,-,dot,mean as uninterpreted row-wise operations; termination not proved; compiled back end absent; trusted: z3, vf/pyvc.py, vf/symrun.py",
    tech="contract-based deductive verification: AST-level VC generation with loop invariant and ghost state (pyvc) + symbolic execution (symrun), z3", ref="DESIGN.md section 6 C09"),
+ "C06": dict(cat="other", engine="pyvc+smallscope",
+   text="Loop invariant on the AST of the real search loop: every tabulated bond of the held configuration keeps its tabulated length (and all pairwise distances when single-atom moves are disabled), for every iteration count and random stream; proposal generators by row-level lemmas (translation identity, rotation about a point via Groebner, move_mol_atom by its C07 contract). Bounded part: real Alignment.align_molecules with the real optimiser (roles, frames, determinism, finiteness, caller objects untouched).",
+   note="move_mol_atom contract proved structure-bounded only (C07); rotation_matrix contract from C17; bond table consistent with the initial configuration is a bounded check; bit-identical determinism is bounded",
+   tech=TECH + ": AST VC generation with loop invariant over uninterpreted shape predicates + lemma axioms (z3), plus " + BND, ref="DESIGN.md section 6 C06"),
+ "C08": dict(cat="other", engine="symrun+smallscope",
+   text="The real Chi2Calculator (built on one mobile configuration, evaluated on another) runs on symbolic coordinates for every shape up to 3x2 / 2x3 and every restraint list of length <= 2; every path (choice of nearest atoms) is enumerated; value == the reference definition written from the statement as a z3 term, non-negative, independent of the construction configuration, inputs unmodified. Structure-bounded. Bounded part: float inputs up to 40x25, all three code paths, metamorphic clauses.",
+   note="cdist by contract; ties excluded; A1, A2; arbitrary shapes not proved",
+   tech=TECH + ": symbolic execution of the real class per shape, path enumeration, z3; plus " + BND, ref="DESIGN.md section 6 C08"),
+ "C10": dict(cat="other", engine="pyvc+smallscope",
+   text="remove_hydrogens: loop invariants with ghost counting functions on the AST of the real function, molecules and restraint lists of arbitrary length (z3 arrays + quantifiers): positions of non-hydrogen atoms in order, kept restraints in order designating the same two atoms. _split_list: contiguous non-empty covering parts for every list length and every number of parts 1..40. Bounded part: role swap / hydrogen filtering routed to the optimiser entry point, guessers exhaustive 1..40 x 1..40, Manager option routing.",
+   note="element test abstracted as a pure predicate; numpy.array keeps row order; routing through Alignment/Manager is bounded only",
+   tech=TECH + ": AST VC generation with quantified loop invariants over arrays (z3) + " + BND, ref="DESIGN.md section 6 C10"),
  "C11": dict(cat="other", engine="smallscope",
    text="Contracts on System.__init__/add_molecule_top/__iter__/__getitem__/__len__/composition from the statement, evaluated on the real classes for every molecule sequence up to the bound over 4 species and every topology loading order, oracle = the generator's own record list. Bounded only.",
    note="bounded scope (sequences <= 4 quick / <= 6 thorough, all loading orders); no deductive obligation (run matching over consumed numpy arrays inside a class)",
@@ -25,6 +53,10 @@ CHECKS = {
    text="Contracts on SystemGro iteration / len / n_atoms / box / title and random access as a single-step obligation from every forced cursor position and after every partial iteration, on generated files (all residue-kind sequences up to the bound, four numbering schemes, velocities on/off) against an independent parse. Bounded only.",
    note="bounded scope (kind sequences <= 4 quick / <= 5 thorough; seeded long files); history length covered by the single-step-from-any-cursor reduction (state scope bounded)",
    tech=BND, ref="DESIGN.md section 6 C12"),
+ "C13": dict(cat="other", engine="pyvc+symrun+smallscope",
+   text="Five-digit wrap: the wrap expressions are extracted from the AST of the real parse_atomlist and proved over all integers (n <= 99999 unchanged; always <= 5 digits). Record layout: the real writer/reader functions run on symbolic numbers with marker strings: every format (d+5,d), d=1..6, velocities on/off, name lengths: right fields in the right columns, line length 20+3w(1+vel), determine_format inverts the writer. Bounded part: real GroFile write/read on real files (titles, boxes, count modes, boundary values).",
+   note="str.format / int / float by contract on marker strings (A3); one representative name per length (A6); file-level behaviour bounded only",
+   tech=TECH + ": AST-extracted integer VCs (z3) + symbolic execution with token strings + " + BND, ref="DESIGN.md section 6 C13"),
  "C14": dict(cat="other", engine="smallscope",
    text="Reader contract (accepted prefix => reaches into the box line and returns exactly the complete file's records) on every byte prefix of generated and shipped files; writer contract (every flushed state before close() returns is rejected) at every low-level write/seek of real writer sessions. Bounded only.",
    note="bounded scope (1..4 records quick / 1..8 thorough, shipped files); operation granularity = each low-level write/seek of the underlying file; OS-level atomicity not modelled",
@@ -41,6 +73,10 @@ CHECKS = {
    text="Every postcondition clause of rotation_matrix and calcule_base taken from the property statement is discharged for all real inputs on every path of the real function (loop-free, fully symbolic => complete); the bounded float twin of the same clauses is reported separately and not counted as proved.",
    note="A1 float64 as exact reals; A2 numpy object-dtype transparency (concolically cross-checked); A4 trig axioms; trusted: z3, sympy, CPython/numpy, vf/symrun.py",
    tech=TECH + ": symbolic execution of the real functions, per-path VCs discharged by z3 / Groebner ideal membership", ref="DESIGN.md section 6 C17"),
+ "C18": dict(cat="other", engine="symrun+smallscope",
+   text="Geometry: the real move/move_to/rotate of Residue and multi-residue Molecule on symbolic coordinates, displacement, target and R in SO(3): exact translation, centre at the requested point, all pairwise distances (incl. across residues) and the centre preserved under rotation (certificate over the SO(3) norm lemma). Layout-bounded. Bounded part: separation invariant and frames as single-step obligations over all copy-like operations and mutators, histories up to length 3, live views.",
+   note="A1, A2; isolation/aliasing clauses are bounded only (Python object graph)",
+   tech=TECH + ": symbolic execution of the real methods per layout (z3, Groebner, certificates) + " + BND, ref="DESIGN.md section 6 C18"),
  "C19": dict(cat="proof", engine="symrun",
    text="Residue.distance_to runs on fully symbolic coordinates and boxes (one path). Orthorhombic boxes: result^2 equals sum (d_i - L_i k_i)^2 for the code's integers k and is <= the same sum for every integer vector n (free integer symbols: all images), hence <= the direct distance. General non-singular boxes: symmetry, invariance under symbolic integer lattice shifts of either argument, inverse-flag equivalence. Every clause is discharged by scripted z3 / Groebner / explicit-certificate steps; the bounded float twin is separate.",
    note="A1 float64 as reals; A2; A3 contract of numpy.linalg.inv (two-sided inverse, functional) and numpy.round (nearest integer); ties excluded as in the statement; trusted: z3, sympy, vf/symrun.py",
